@@ -170,8 +170,10 @@ def build() -> Check:
         return out
     g_guard = orphan_disjuncts(pm.ckpt_fn.node, "operation_update.")
     g_query = orphan_disjuncts(rio_.node, "operation_update.")
-    if len(g_guard) != 1 or len(g_query) != 1:
+    if len(g_guard) != 1 or len(g_query) > 1:
         raise AnalysisError(f"orphan guard / query not recognised: {g_guard} / {g_query}")
+    if not g_query:
+        g_query = [["<the query never raises OrphanedChildException>"]]
     ck.ob("R6.read-only-query-asks-what-the-guard-asks", fn_construct(rio_), g_guard[0] == g_query[0],
           f"create_checkpoint rejects an update when {' or '.join(g_guard[0])}; raise_if_orphaned stops a resumed operation when {' or '.join(g_query[0])}: an operation the "
           "guard would reject passes the query and runs its user function beneath a completed context")
